@@ -73,6 +73,7 @@ type Manager struct {
 	pendingAppliers  map[string]SyncApplier
 
 	ifToSRG     map[uint32]string
+	ifDown      map[uint32]bool
 	ifDownCount map[string]int
 	peerNodeID  string
 	mu          sync.RWMutex
@@ -931,6 +932,7 @@ func (m *Manager) IncrementBulkSync(srgName string) {
 
 func (m *Manager) buildInterfaceMap() {
 	m.ifToSRG = make(map[uint32]string)
+	m.ifDown = make(map[uint32]bool)
 	m.ifDownCount = make(map[string]int)
 	if m.ifResolver == nil {
 		return
@@ -980,12 +982,19 @@ func (m *Manager) handleInterfaceEvent(ev events.Event) {
 		return
 	}
 
+	// Count interfaces, not notifications: a repeated down (or a delete
+	// after a down) must not decrement twice, and an up for an interface
+	// that was never down must not cancel another interface's decrement.
+	isDown := !ifEv.LinkUp || ifEv.Deleted
 	m.mu.Lock()
-	wasDown := m.ifDownCount[srgName]
-	if !ifEv.LinkUp || ifEv.Deleted {
-		m.ifDownCount[srgName]++
-	} else if wasDown > 0 {
-		m.ifDownCount[srgName]--
+	if isDown != m.ifDown[ifEv.SwIfIndex] {
+		if isDown {
+			m.ifDown[ifEv.SwIfIndex] = true
+			m.ifDownCount[srgName]++
+		} else {
+			delete(m.ifDown, ifEv.SwIfIndex)
+			m.ifDownCount[srgName]--
+		}
 	}
 	downCount := m.ifDownCount[srgName]
 	m.mu.Unlock()
